@@ -45,7 +45,7 @@ fn parts_for(id: &str) -> Option<(&'static str, Vec<Box<dyn DynPart>>, Vec<Strin
         "C03" => ("C03", c03::parts(), none),
         "C04" => ("C04", c04::parts(), none),
         "C05" => ("C05", c05::parts(), none),
-        "C06" => ("C06", c06::parts(), none),
+        "C06" => ("C06", c06::parts_all(), none),
         "C07" => ("C07", c07::parts_all(), none),
         "C08" => ("C08", { let mut p = c08::parts(); p.extend(c08c::parts()); p }, none),
         "C09" => ("C09", c09::parts(), none),
